@@ -3,6 +3,7 @@ import JunoModel.C12.ProofsAbstract
 import JunoModel.C12.ProofsTrace
 import JunoModel.C12.ProofsFuel
 import JunoModel.C12.ProofsRefine
+import JunoModel.C12.ProofsNonVacuity
 /-!
 C12 — property theorems (statements only; the proofs are in `Proofs*.lean`).
 
@@ -216,6 +217,9 @@ example : Action.bcastPrecommit ⟨0, 0, 1, some 8⟩ ∈ ((Machine.new exEnv 1 
   decide
 example : Action.bcastPrevote ⟨1, 0, 1, some 400⟩ ∈ ((Machine.new exEnv 1 0).run exEnv exDisciplined).2 := by
   decide
+-- the hypotheses of `agreement` are satisfiable, and a decision is reachable
+example : E4.WF := E4_wf
+example : ∃ s, Reach E4 (fun _ => 0) s ∧ s.hist.decision 0 0 8 := E4_run_decides
 -- thresholds
 example : fN 4 = 1 ∧ qN 4 = 3 ∧ fN 7 = 2 ∧ qN 7 = 5 ∧ fN 10 = 3 ∧ qN 10 = 7 := by decide
 
